@@ -84,10 +84,10 @@ def layer_a_units(tier):
             u.append(dict(layer="A", ne=ne, ng=ng, family="orders", labels="full", chunk=[0, 1]))
     n22 = 12  # split the 2x2 family
     u = [x for x in u if not (x["ne"] == 2 and x["ng"] == 2)]
-    u += [dict(layer="A", ne=2, ng=2, family="orders", labels="full", chunk=[k, n22]) for k in range(n22)]
+    u += [dict(layer="A", ne=2, ng=2, family="orders", labels="full", chunk=[k, n22], trim=tier == "quick") for k in range(n22)]
     for ne, ng in ((3, 2), (2, 3), (3, 1), (1, 3), (3, 0), (0, 3)):
         if ne * ng == 6:
-            u += [dict(layer="A", ne=ne, ng=ng, family="lowhigh", labels="reduced", chunk=[k, 8]) for k in range(8)]
+            u += [dict(layer="A", ne=ne, ng=ng, family="lowhigh", labels="reduced", chunk=[k, 8], trim=tier == "quick") for k in range(8)]
         else:
             u.append(dict(layer="A", ne=ne, ng=ng, family="orders", labels="full" if tier == "thorough" else "reduced", chunk=[0, 1]))
     if tier == "thorough":
@@ -107,7 +107,7 @@ def layer_a_cases(unit):
     rad = radius_for(ne, ng, unit["family"])
     if unit["labels"] == "full":
         els = list(itertools.product(LAB3, repeat=ne))
-        gls = list(itertools.product(GLAB3, repeat=ng))
+        gls = list(itertools.product(GLAB3 if ne * ng > 2 else GLAB3 + ("UNKNOWN",), repeat=ng))
     elif unit["labels"] == "reduced":
         els = REDUCED_E3 if ne == 3 else [e[:ne] for e in REDUCED_E2]
         gls = REDUCED_G3 if ng == 3 else [g[:ng] for g in REDUCED_G2]
@@ -125,7 +125,12 @@ def layer_a_cases(unit):
                 for pol in POLICIES:
                     for radii in radii_menu:
                         for task in ("detection", "fp_validation"):
-                            yield layer_a_case(D, el, gl, pol, radii, task)
+                            if unit.get("trim") and task == "fp_validation" and radii is not None and radii[1] != rad:
+                                continue   # quick tier: FP validation with {no radius, uniform radius}
+                            c = layer_a_case(D, el, gl, pol, radii, task)
+                            if ne * ng <= 2:   # calls with the other radius settings are made first (hidden state between calls)
+                                c["warm"] = [[100.0, 100.0]] + [r for r in radii_menu if r != radii]
+                            yield c
 
 
 # ------------------------------------------------------------------------------------------------
@@ -139,6 +144,7 @@ def pools_b(seed):
         dict(x=5.0, y=-1.0, yaw=0.0, size=[2.0, 4.0, 1.5], label="CAR"),              # mirror twin of est[4] about y=0 (tie)
         dict(x=5.0, y=1.0, yaw=0.0, size=[2.0, 4.0, 1.5], label="CAR"),
         dict(x=5.2 + jx, y=0.3, yaw=0.4, size=[2.0, 4.0, 1.5], label="CAR", frame="map"),  # other coordinate frame
+        dict(x=5.0 + jx, y=0.0 + jy, yaw=0.0, size=[1.0, 2.0, 1.5], label="CAR"),          # concentric with est[0], smaller (equal under DynamicObject.__eq__)
     ]
     gt = [
         dict(x=5.3 + jx, y=0.2 + jy, yaw=0.05, size=[2.0, 4.0, 1.5], label="CAR"),
@@ -147,6 +153,7 @@ def pools_b(seed):
         dict(x=5.0, y=0.0, yaw=0.0, size=[2.0, 4.0, 1.5], label="CAR"),               # equidistant from est[3], est[4]
         dict(x=5.6, y=0.9 + jy, yaw=-1.1, size=[1.0, 1.0, 1.0], label="FP"),
         dict(x=5.1 + jx, y=0.1, yaw=0.4, size=[2.0, 4.0, 1.5], label="CAR", frame="map"),
+        dict(x=5.3 + jx, y=0.2 + jy, yaw=0.05, size=[1.6, 3.2, 1.5], label="CAR"),          # concentric with gt[0], smaller
     ]
     for i, s in enumerate(est):
         s.update(uuid="e%d" % i, score=round(0.95 - 0.07 * i, 3), z=0.0)
@@ -170,20 +177,23 @@ def subsets(n, kmax, both_orders=True):
 
 def layer_b_units(tier):
     kmax = 2 if tier == "quick" else 3
-    return [dict(layer="B", kmax=kmax, mode=m, task=t, policy=p, both=tier != "quick")
-            for m in MODE_CLS for t in ("detection", "fp_validation") for p in POLICIES]
+    combos = [("detection", p) for p in POLICIES] + [("fp_validation", p) for p in POLICIES]
+    if tier == "quick":   # ALLOW_UNKNOWN x geometry is left to layer A / thorough; FP validation with the default policy
+        combos = [("detection", "DEFAULT"), ("detection", "ALLOW_ANY"), ("fp_validation", "DEFAULT")]
+    return [dict(layer="B", kmax=kmax, mode=m, task=t, policy=p, both=tier != "quick") for m in MODE_CLS for t, p in combos]
 
 
 def layer_b_cases(unit, seed):
     est, gt = pools_b(seed)
     ego = G.ego_menu(seed)[1]
-    subs = subsets(6, unit["kmax"], unit["both"])
+    subs = subsets(len(est), unit["kmax"], unit["both"])
     for es in subs:
         for gs in subs:
             for pol in (unit["policy"],):
                 for radii in (None, RADII_B[unit["mode"]]):
                     yield {"layer": "B", "dim": 3, "ests": [est[i] for i in es], "gts": [gt[j] for j in gs], "policy": pol,
-                           "radii": radii, "task": unit["task"], "mode": unit["mode"], "tl": TL, "ego": list(ego)}
+                           "radii": radii, "task": unit["task"], "mode": unit["mode"], "tl": TL, "ego": list(ego),
+                           "warm": [[0.0, 0.0] if MAXIMIZE[unit["mode"]] else [100.0, 100.0]] + [r for r in (None, RADII_B[unit["mode"]]) if r != radii]}
 
 
 # ------------------------------------------------------------------------------------------------
@@ -195,6 +205,7 @@ def pools_c():
         dict(roi=[7, 0, 4, 10], cam="CAM_FRONT", label="UNKNOWN"),
         dict(roi=[0, 0, 10, 10], cam="CAM_BACK", label="CAR"),
         dict(roi=[40, 40, 4, 4], cam="CAM_FRONT", label="CAR"),
+        dict(roi=[1, 1, 10, 10], cam="CAM_FRONT_RIGHT", label="CAR"),   # frame name extends CAM_FRONT
     ]
     gt = [
         dict(roi=[1, 0, 10, 10], cam="CAM_FRONT", label="CAR"),
@@ -202,6 +213,7 @@ def pools_c():
         dict(roi=[6, 0, 5, 10], cam="CAM_FRONT", label="FP"),
         dict(roi=[0, 1, 10, 10], cam="CAM_BACK", label="CAR"),
         dict(roi=[0, 0, 10, 10], cam="CAM_FRONT", label="PEDESTRIAN"),
+        dict(roi=[2, 1, 10, 10], cam="CAM_FRONT_LOWER", label="CAR"),
     ]
     for i, s in enumerate(est):
         s.update(uuid="e%d" % i, score=round(0.95 - 0.07 * i, 3))
@@ -220,18 +232,38 @@ def layer_c_units(tier):
 
 def layer_c_cases(unit):
     est, gt = pools_c()
-    es_subs, gs_subs = subsets(5, min(2, unit["kmax"]), unit["both"]), subsets(5, unit["kmax"], unit["both"])
+    es_subs, gs_subs = subsets(len(est), min(2, unit["kmax"]), unit["both"]), subsets(len(gt), unit["kmax"], unit["both"])
     for es in es_subs:
         for gs in gs_subs:
             for pol in POLICIES:
                 for radii in (None, RADII_C[unit["mode"]]):
                     yield {"layer": "C", "dim": 2, "ests": [est[i] for i in es], "gts": [gt[j] for j in gs], "policy": pol,
-                           "radii": radii, "task": unit["task"], "mode": unit["mode"], "tl": TL}
+                           "radii": radii, "task": unit["task"], "mode": unit["mode"], "tl": TL,
+                           "warm": [[0.0, 0.0] if MAXIMIZE[unit["mode"]] else [500.0, 500.0]] + [r for r in (None, RADII_C[unit["mode"]]) if r != radii]}
 
 
 # ------------------------------------------------------------------------------------------------
+# ------------------------------------------------------------------------------------------------
+# Layer M: the same pools through PerceptionEvaluationManager.add_frame_result (wiring of policy, radii, transforms)
+def layer_m_units(tier):
+    return [dict(layer="M", frame=fr, policy=p, kmax=2 if tier == "quick" else 3) for fr in ("base_link", "map") for p in POLICIES]
+
+
+def layer_m_cases(unit, seed):
+    est, gt = pools_b(seed)
+    est = [dict(s, frame=None) for s in est[:5]]
+    gt = [dict(s, frame=None) for s in gt[:5]]
+    ego = G.ego_menu(seed)[1]
+    subs = subsets(5, unit["kmax"], False)
+    for es in subs:
+        for gs in subs:
+            for radii in (None, [1.5, 0.8]):
+                yield {"layer": "M", "dim": 3, "ests": [dict(est[i], frame=unit["frame"]) for i in es], "gts": [dict(gt[j], frame=unit["frame"]) for j in gs],
+                       "policy": unit["policy"], "radii": radii, "task": "detection", "mode": "CENTERDISTANCE", "tl": TL, "ego": list(ego)}
+
+
 def units(tier, seed):
-    u = layer_a_units(tier) + layer_b_units(tier) + layer_c_units(tier)
+    u = layer_a_units(tier) + layer_b_units(tier) + layer_c_units(tier) + layer_m_units(tier)
     # biggest units first (better load balance); order does not change the space
     return sorted(u, key=lambda x: -(x.get("ne", 2) * x.get("ng", 2) + (3 if x["layer"] == "A" and x["labels"] == "full" else 0)))
 
@@ -241,6 +273,8 @@ def cases_of(unit, seed):
         return layer_a_cases(unit)
     if unit["layer"] == "B":
         return layer_b_cases(unit, seed)
+    if unit["layer"] == "M":
+        return layer_m_cases(unit, seed)
     return layer_c_cases(unit)
 
 
@@ -251,6 +285,7 @@ def bounds(tier, seed):
                           "low/high tables (two labels per side), 4x3 all 4096 low/high tables (2x2 label vectors)" if tier == "thorough" else ""),
             "layer_B": "ordered sub-lists of size <= %d from pools of 6 estimates / 6 ground truths, 4 modes" % (2 if tier == "quick" else 3),
             "layer_C": "ROI objects over two cameras, est <= 2, gt <= %d, 2 modes" % (2 if tier == "quick" else 3),
+            "layer_M": "sub-lists <= %d of 5 x 5 pool objects through PerceptionEvaluationManager.add_frame_result (ego and map rendering, 3 policies, radii none / per-label)" % (2 if tier == "quick" else 3),
             "policies": POLICIES, "radii": "none / biting for every label / biting for one label", "tasks": "normal and FP validation",
             "jitter": list(G.jitter(seed))}
 
@@ -281,9 +316,31 @@ def snapshot(objs):
 
 
 def call(case, ests, gts, tf):
+    if case["layer"] == "M":
+        from mc.gen import frames as F
+        frame = case["ests"][0]["frame"] if case["ests"] else (case["gts"][0]["frame"] if case["gts"] else "base_link")
+        m = F.manager("detection", frame, dict(matching_label_policy=case["policy"], max_matchable_radii=case["radii"]))
+        m.frame_results = []
+        fr = m.add_frame_result(100, F.frame_gt(gts, tuple(case["ego"])), ests, F.crit_config(m.evaluator_config, dict(max_x=[90.0, 90.0], max_y=[90.0, 90.0])),
+                                F.pf_config(m.evaluator_config, [1.0, 1.0]))
+        m.frame_results = []
+        return fr.object_results
     return get_object_results(
         EvaluationTask(case["task"]), ests, gts, [AutowareLabel[n] for n in case["tl"]],
         MatchingLabelPolicy[case["policy"]], MatchingMode[case["mode"]], case["radii"], tf)
+
+
+def warm_up(case, ests, gts, tf):
+    """calls with the other radius settings of the menu on the same objects, made before the call under test: hidden state
+    carried between calls (memoised radii, cached scores) then shows in the call under test.  Results are ignored."""
+    n = 0
+    for r in case.get("warm", []):
+        try:
+            call(dict(case, radii=r), list(ests), list(gts), tf)
+        except Exception:  # noqa
+            pass
+        n += 1
+    return n
 
 
 def pairing(R, ests, gts):
